@@ -458,7 +458,19 @@ class ExprMixin:
                 return PtrV(v.term, tt.elem())
             return v
         if ft.is_int() and tt.is_string():
-            raise Unsupported("string(rune)")
+            # string(rune): the UTF-8 encoding, 1..4 bytes; exact for ASCII (one byte equal to the rune), abstract otherwise
+            bt = _byte_type(self.prog)
+            n = self.fresh("runelen", IS)
+            r = self.alloc_slice(st, bt, n, n, zero=False)
+            w = v.size()
+            self.assume(st, z3.And(n >= 1, n <= 4, (n == 1) == z3.And(v >= 0, v < bv(0x80, w))))
+            a = self.fresh("runebytes", z3.ArraySort(IS, z3.BitVecSort(8)))
+            self.assume(st, z3.Implies(n == 1, z3.Select(a, idx(0)) == z3.Extract(7, 0, v)))
+            saved = self.frame_spec
+            self.frame_spec = None
+            self.region_store(st, r, [a])
+            self.frame_spec = saved
+            return SliceV(r.rid, idx(0), n, n, bt, isstr=True)
         if ft.is_bool() and tt.is_bool():
             return v
         raise Unsupported("conversion %r -> %r" % (ft, tt))
